@@ -48,7 +48,7 @@ def Leaf.modify (l : Leaf) (k : Key) (op : Op) (o : Nat) : Option Leaf :=
   match op with
   | .upd => (upd l.es k o).map fun es' => { l with es := es' }
   | .del => (del l.es k).map fun es' =>
-      if l.es.length = 1 then { pre := 0, es := [] }
+      if l.es.length = 1 then { pre := 0, es := es' }
       else { pre := if l.es.length - 1 = 1 then 0 else l.pre, es := es' }
   | .add => (ins l.es k o).map fun es' =>
       let i := posOf l.es k
